@@ -151,6 +151,10 @@ pub enum TableShape {
     Seconds,
     /// sparse points followed by placeholder points, inserted the way a user would (update_file)
     Placeholders,
+    /// a user-made table whose first defined point lies after the start of the stream
+    LateFirst,
+    /// a table holding nothing but placeholder points (or no points at all)
+    OnlyPlaceholders,
 }
 
 pub struct Fixture {
@@ -188,13 +192,21 @@ pub fn make_fixture(ch: &Choices, seekable: bool) -> Option<Fixture> {
     let shape = if seekable {
         *ch.pick(
             "rd.table",
-            &[TableShape::EveryFrame, TableShape::None, TableShape::Sparse, TableShape::Seconds, TableShape::Placeholders],
+            &[
+                TableShape::EveryFrame,
+                TableShape::None,
+                TableShape::Sparse,
+                TableShape::Seconds,
+                TableShape::Placeholders,
+                TableShape::LateFirst,
+                TableShape::OnlyPlaceholders,
+            ],
         )
     } else {
         TableShape::None
     };
     cfg.seek = match shape {
-        TableShape::None | TableShape::Placeholders => SeekPolicy::Off,
+        TableShape::None | TableShape::Placeholders | TableShape::LateFirst | TableShape::OnlyPlaceholders => SeekPolicy::Off,
         TableShape::EveryFrame => SeekPolicy::Frames(1),
         TableShape::Sparse => SeekPolicy::Frames(2 + ch.draw("rd.sparse", 3) as usize),
         TableShape::Seconds => {
@@ -211,11 +223,24 @@ pub fn make_fixture(ch: &Choices, seekable: bool) -> Option<Fixture> {
         w.finalize().ok()?;
     }
     let mut bytes = cur.into_inner();
-    if shape == TableShape::Placeholders {
-        let k = 2 + ch.draw("rd.ph.every", 3) as usize;
+    if matches!(shape, TableShape::Placeholders | TableShape::LateFirst | TableShape::OnlyPlaceholders) {
+        let k = if shape == TableShape::Placeholders { 2 + ch.draw("rd.ph.every", 3) as usize } else { 1 + ch.draw("rd.ph.every", 2) as usize };
         let t = flac_codec::encode::generate_seektable(Cursor::new(&bytes), SeekTableInterval::Frames(k.try_into().unwrap())).ok()?;
         let mut pts: Vec<SeekPoint> = t.points.iter().cloned().collect();
-        for _ in 0..1 + ch.draw("rd.ph.n", 3) {
+        match shape {
+            TableShape::LateFirst => {
+                let drop = (1 + ch.draw("rd.late.drop", 3) as usize).min(pts.len().saturating_sub(1));
+                pts.drain(0..drop);
+                probe("c06_table_first_point_after_start");
+            }
+            TableShape::OnlyPlaceholders => {
+                pts.clear();
+                probe("c06_table_only_placeholders");
+            }
+            _ => {}
+        }
+        let nph = if shape == TableShape::OnlyPlaceholders { ch.draw("rd.ph.n", 3) } else { 1 + ch.draw("rd.ph.n", 3) };
+        for _ in 0..nph {
             pts.push(SeekPoint::Placeholder);
         }
         let table = SeekTable {
